@@ -249,8 +249,23 @@ def seq_len(e):
     return z3.Length(e)
 
 
-def truth(v: V):
-    """z3 Bool for Python truthiness."""
+def truth(v: V, st=None):
+    """z3 Bool for Python truthiness (st: state, needed for references to heap objects)."""
+    if isinstance(v, VRef):
+        if st is None:
+            raise Unsupported(f"truth of {v} without a state")
+        o = st.heap[v.oid]
+        if o.kind in ("inst", "msg", "cell", "env"):
+            return z3.BoolVal(True)          # classes in scope define neither __bool__ nor __len__
+        if o.kind in ("list", "cset"):
+            return z3.BoolVal(len(o.f["items"]) > 0)
+        if o.kind == "dict":
+            return z3.BoolVal(len(o.f["items"]) > 0)
+        if o.kind in ("buf", "slist"):
+            return z3.Length(o.f["e"]) > 0
+        if o.kind == "sset":
+            return o.f["e"] != z3.EmptySet(ObjS)
+        raise Unsupported(f"truth of heap object kind {o.kind}")
     if isinstance(v, VBool):
         return v.e
     if isinstance(v, VNoneT):
@@ -273,7 +288,7 @@ def truth(v: V):
     if isinstance(v, (VObj, VClass, VFunc, VModule)):
         return z3.BoolVal(True)
     if isinstance(v, VUnion):
-        return z3.Or(*[z3.And(g, truth(a)) for g, a in v.alts])
+        return z3.Or(*[z3.And(g, truth(a, st)) for g, a in v.alts])
     raise Unsupported(f"truth of {v}")
 
 
